@@ -15,6 +15,9 @@ func checks() []check {
 		{ID: "C08", Level: "model_checking", Parts: []part{
 			{Name: "node-ipam-quota-convergence", Pkg: "pkg/controller/multi-ip/node", Run: "^TestVerifC08$", Sets: []string{"weave"}, Weave: []string{"pkg/controller/multi-ip/node", "pkg/vswitch"}, NoSubst: "golang.org/x/time/rate.NewLimiter,golang.org/x/time/rate.Limiter", ShardsQ: 16, ShardsT: 16},
 		}},
+		{ID: "C03", Level: "model_checking", Parts: []part{
+			{Name: "reclaim-after-teardown", Pkg: "daemon", Run: "^TestVerifC03$", Sets: []string{"weave"}, Weave: []string{"daemon", "pkg/eni", "pkg/storage", "pkg/controller/multi-ip/node", "pkg/vswitch"}, NoSubst: "golang.org/x/time/rate.NewLimiter,golang.org/x/time/rate.Limiter", Netns: true, ShardsQ: 16, ShardsT: 16},
+		}},
 		{ID: "C04", Level: "model_checking", Parts: []part{
 			{Name: "rpc-interleavings", Pkg: "daemon", Run: "^TestVerifC04$", Sets: []string{"weave"}, Weave: []string{"daemon", "pkg/eni", "pkg/storage"}, ShardsQ: 9, ShardsT: 16},
 		}},
